@@ -10,15 +10,26 @@ Local Open Scope nat_scope.
 
 (* the whole law (Law.v, clauses 2-7) holds at every step of every history *)
 Theorem law_holds_on_every_history :
-  forall E, wf E = true -> forall ops s i, law_hist E i s (run E s ops) = [].
+  forall E, wf E = true -> e_store_original E = false -> forall ops s i, law_hist E i s (run E s ops) = [].
 Proof. exact run_law. Qed.
 Print Assumptions law_holds_on_every_history.
+
+(* The hypothesis [e_store_original E = false] excludes traits that store the assigned object instead of the
+   validated one (Expression, AdaptsTo): for those the law is refuted on the current tree (finding F18) — in identity
+   mode, assigning the stored object again calls the handlers with old = new.  The model follows the code. *)
+Theorem law_refuted_when_original_value_is_stored :
+  wf store_original_env = true /\
+  map (fun p => o_calls (snd p)) (run store_original_env None [Assign 10; Assign 10])
+    = [[(1, OVal 6, 10); (10, OVal 6, 10)]; [(1, OVal 10, 10); (10, OVal 10, 10)]] /\
+  law_hist store_original_env 0%Z None (run store_original_env None [Assign 10; Assign 10]) = [102%Z].
+Proof. exact law_refuted_store_original. Qed.
+Print Assumptions law_refuted_when_original_value_is_stored.
 
 (* every handler is called exactly for the assignments that count as a change under the trait's mode
    (Event: every accepted assignment, old = Undefined), with old = readable before and new = validated value,
    in order, and for nothing else: the call list equals a specification that never mentions notifiers *)
 Theorem calls_are_exactly_changes :
-  forall E, wf E = true -> forall h, In h (e_handlers E) -> forall ops s,
+  forall E, wf E = true -> e_store_original E = false -> forall h, In h (e_handlers E) -> forall ops s,
     calls_of (h_id h) (all_calls (run E s ops)) = spec_calls E h s ops.
 Proof. exact calls_exact. Qed.
 Print Assumptions calls_are_exactly_changes.
@@ -26,10 +37,11 @@ Print Assumptions calls_are_exactly_changes.
 (* `del` (outside the statement, modelled for faithfulness) reports (stored value, default) the same way *)
 Theorem old_new_truthful :
   forall E s o c, In c (o_calls (snd (step E s o))) ->
-    (exists v w, o = Assign v /\ e_validate E v = Some w /\ snd c = w /\
+    (exists v w, o = Assign v /\ e_validate E v = Some w /\
        match e_kind E with
-       | TEvent => snd (fst c) = OUndefined
-       | TNormal _ => snd (fst c) = OVal (readable E s) /\ readable E (fst (step E s o)) = w
+       | TEvent => snd (fst c) = OUndefined /\ snd c = w
+       | TNormal _ => snd (fst c) = OVal (readable E s) /\ readable E (fst (step E s o)) = snd c
+                      /\ snd c = (if e_store_original E then v else w)
        end)
     \/ (o = Delete /\ snd (fst c) = OVal (readable E s) /\ snd c = e_default E
         /\ readable E (fst (step E s o)) = e_default E).
@@ -38,7 +50,8 @@ Print Assumptions old_new_truthful.
 
 (* all mechanisms see the same (old, new) sequence when != is false exactly when == is true *)
 Theorem three_mechanisms_agree :
-  forall E, wf E = true -> forall h1 h2, coherent_eq E -> In h1 (e_handlers E) -> In h2 (e_handlers E) ->
+  forall E, wf E = true -> e_store_original E = false ->
+    forall h1 h2, coherent_eq E -> In h1 (e_handlers E) -> In h2 (e_handlers E) ->
     forall ops s,
       map strip (calls_of (h_id h1) (all_calls (run E s ops))) = map strip (calls_of (h_id h2) (all_calls (run E s ops))).
 Proof. exact mechanisms_agree. Qed.
@@ -83,7 +96,7 @@ Example history_nontrivial :
   let E := {| e_eq := eqf; e_ne := nef; e_validate := fun v => if v =? 3 then None else Some v; e_default := 9;
               e_kind := TNormal MEquality;
               e_handlers := [mkHandler 0 StaticAny false; mkHandler 1 StaticChanged true; mkHandler 2 StaticFired false;
-                             mkHandler 10 Otc false; mkHandler 11 Observe true] |} in
+                             mkHandler 10 Otc false; mkHandler 11 Observe true]; e_store_original := false |} in
   wf E = true
   /\ map (fun p => length (o_calls (snd p))) (run E None [Read; Assign 0; Assign 1; Assign 3; Assign 2; Assign 2; Assign 4])
      = [0; 5; 0; 0; 5; 0; 5]
